@@ -82,6 +82,8 @@ def link_models(ctx, mutate=None, tag=""):
             props = ("C05", "C02", "C07") if kind != "int>1e308" else ("C05", "C07")
             if field == "group_weight":
                 props = props + ("C03", "C10")
+            if field == "group_definition":
+                props = props + ("C03", "C14")
             out.append(Obl("model%s:%s.%s/%s" % (tag, cls, field, kind), fn, "model", text, status=DISCHARGED if ok else REFUTED, backend="case-analysis(pydantic-model)",
                            detail="Union%s smart_union=%s => %s" % (mem, smart, pred), props=props,
                            model={"kind": kind, "exemplars": [enc(x) for x in PM.EXEMPLARS[kind]], "prediction": list(pred)}, replay=model_replay))
@@ -103,7 +105,7 @@ def link_models(ctx, mutate=None, tag=""):
                 if not agree:
                     bad.append({"case": {k: c[k] for k in ("cls", "field", "kind", "value")}, "model": list(p), "real": r})
             out.append(Obl("xcheck:models/pydantic-model-vs-real-classes", MOD, "xcheck", "the assumed pydantic validation model predicts the real classes on the exemplar pool",
-                           status=DISCHARGED if not bad else ERROR, backend="native-bounded", bounded=True, detail=str(bad[:3]), props=("C05", "C07", "C02"),
+                           status=DISCHARGED if not bad else ERROR, backend="native-bounded", bounded=True, detail=str(bad[:3]), props=("C05", "C07", "C02", "C03", "C10"),
                            meta={"coverage": {"evaluations": len(cases)}}))
         except Exception as e:   # noqa
             out.append(Obl("xcheck:models/pydantic-model-vs-real-classes", MOD, "xcheck", "cross-check runs", status=ERROR, backend="native-bounded", bounded=True, detail=repr(e), props=("C05",)))
